@@ -13,8 +13,20 @@ The coverage theorems hold for **every** exponent `k ≤ 31`, both build profile
 leader/trailer sizes with `size + 2^k - 1 < 2^32` and all payloads `< 2^32 · roundUp 2^k 65536`;
 outside that scope the (repaired) code returns an error (`sizes_total`, `never_panics`).
 The failure theorems hold for every device image, handle state and fault schedule.
+
+Sections 1-4 are about the one-command-per-register model (`Model/Streaming.lean`).  Section 5
+puts the negotiated `maximum_cmd_length` / `maximum_ack_length` inside the model
+(`Model/StreamingLimits.lean`; `Proofs/C15Limits.lean`) and extends coverage, failure atomicity
+and panic freedom to every pair of limits; section 6 is a device that publishes new required
+sizes when the stream is disabled (`Model/StreamingPublish.lean`; `Proofs/C15Publish.lean`);
+section 7 ties the literal constants of the models to files regenerated from the source.
 -/
 import CamVerif.Proofs.C15
+import CamVerif.Proofs.C15Limits
+import CamVerif.Proofs.C15Publish
+import CamVerif.Gen.C15Consts
+import CamVerif.Gen.RegMap
+import CamVerif.Gen.CmdConsts
 namespace CamVerif.C15
 open CamVerif CamVerif.Streaming
 
@@ -738,6 +750,183 @@ theorem disable_clears (m : Mem) (log : List Access) (c : Option (Nat × Nat)) (
 leader 52, payload 1 000 000, trailer 100 > leader) satisfies the hypotheses, and concrete
 faulted runs exhibit the failure cases. -/
 
+/-! ## 6. A device that publishes new requirements when the host disables the stream
+
+`Model/StreamingPublish.lean`: USB3 Vision keeps the required sizes frozen while the stream is
+enabled; a device that was reconfigured while a (dead) host left it streaming shows the OLD
+required sizes and publishes the current ones (`pd`: required payload, leader, trailer — the 16
+bytes at SIRM + 8) the moment a write clears the stream-enable bit.  `Prim.publishing (pubOf s pd)`
+is the handle over that device.  The property demands coverage of what the device requires when
+the sizes are programmed and the stream is enabled, i.e. of the PUBLISHED sizes: they are what the
+device shows from the disable write on, in particular at the enable write and after the call. -/
+
+private theorem ResolvesTo.resolves {m : Mem} {log sb si} {s : Nat} (h : ResolvesTo m sb si s) :
+    Resolves (mkSt m log sb si) s := by
+  cases h with
+  | warm h => exact .warm h
+  | cold h1 h2 b h3 => exact .cold h1 h2 b h3
+  | mixed h1 b cap h2 hcap hsp hm haddr _ => exact .mixed h1 b cap h2 hcap hsp hm haddr
+
+/-- **publishing_device_run**: on a fault-free publishing device whose SIRM is mapped, from every
+cache state that resolves: if the stream is still enabled the whole call — result, access log,
+final image, caches — is that of the one-command-per-register model on a device that shows the
+published registers from the start (the only access before the disable write that looks at the
+SIRM is the read of SI_CONTROL); if the stream is not enabled nothing is published and the call is
+the plain one. -/
+theorem publishing_device_run (p : Profile) (s : Nat) (pd : Bytes) (m : Mem) (log sb si)
+    (hs : SirmOk m s) (hpd : pd.length = 16) (hr : ResolvesTo m sb si s) :
+    (enabledIn m s → enableStreamingG (Prim.publishing (pubOf s pd)) p (mkSt m log sb si) =
+      enableStreaming p (mkSt (m.write (s + REQUIRED_PAYLOAD_SIZE) pd) log sb si)) ∧
+    (¬ enabledIn m s → enableStreamingG (Prim.publishing (pubOf s pd)) p (mkSt m log sb si) =
+      enableStreaming p (mkSt m log sb si)) :=
+  enableStreamingG_pub p s pd m log sb si hs hpd hr
+
+/-- **published_requirements_covered**: the stream is still enabled, the device will publish `pd`
+on disable, and the PUBLISHED configuration is in the theorem scope (the stale visible one may be
+anything).  Then the call returns `Ok`; afterwards the device shows the published requirements
+and the programmed sizes cover THEM: maximum leader ≥ required leader, maximum trailer ≥ required
+trailer, size × count + final1 + final2 ≥ required payload — all read from the final image —,
+every size is a multiple of the alignment, the first write of the call is `SI_CONTROL := 0`, the
+last access is `SI_CONTROL := 1`, and the enable bit is set. -/
+theorem published_requirements_covered (p : Profile) (s e : Nat) (pd : Bytes) (m : Mem) (log sb si)
+    (hs : SirmOk m s) (hpd : pd.length = 16) (hr : ResolvesTo m sb si s) (hen : enabledIn m s)
+    (hin : InScope (m.write (s + REQUIRED_PAYLOAD_SIZE) pd) s e) :
+    let r := enableStreamingG (Prim.publishing (pubOf s pd)) p (mkSt m log sb si)
+    let img := r.2.dev.mem
+    r.1 = .ok () ∧ img.read (s + REQUIRED_PAYLOAD_SIZE) 16 = pd ∧
+    regVal img s REQUIRED_LEADER_SIZE 4 ≤ regVal img s MAXIMUM_LEADER_SIZE 4 ∧
+    regVal img s REQUIRED_TRAILER_SIZE 4 ≤ regVal img s MAXIMUM_TRAILER_SIZE 4 ∧
+    regVal img s REQUIRED_PAYLOAD_SIZE 8 ≤
+      regVal img s PAYLOAD_TRANSFER_SIZE_REG 4 * regVal img s PAYLOAD_TRANSFER_COUNT 4 +
+      regVal img s PAYLOAD_FINAL_TRANSFER1_SIZE 4 + regVal img s PAYLOAD_FINAL_TRANSFER2_SIZE 4 ∧
+    (2 ^ e ∣ regVal img s PAYLOAD_TRANSFER_SIZE_REG 4 ∧ 2 ^ e ∣ regVal img s PAYLOAD_FINAL_TRANSFER1_SIZE 4 ∧
+      2 ^ e ∣ regVal img s PAYLOAD_FINAL_TRANSFER2_SIZE 4 ∧ 2 ^ e ∣ regVal img s MAXIMUM_LEADER_SIZE 4 ∧
+      2 ^ e ∣ regVal img s MAXIMUM_TRAILER_SIZE 4) ∧
+    enabledIn img s ∧
+    ∃ new, r.2.dev.log = log ++ new ∧
+      firstWrite new = some (.w (s + SI_CONTROL) (toLE 4 0) true true) ∧
+      new.getLast? = some (.w (s + SI_CONTROL) (toLE 4 1) true true) ∧
+      (∀ a ∈ new.dropLast, ¬ a.enables s) := by
+  intro r img
+  have hconf : Conforming (mkSt (m.write (s + REQUIRED_PAYLOAD_SIZE) pd) log sb si) s e :=
+    ⟨rfl, (hr.write REQUIRED_PAYLOAD_SIZE pd (by rw [hpd]; decide)).resolves,
+      ⟨hs.inSpace, by simpa using hs.mapped⟩, hin⟩
+  have hrun : r = enableStreaming p (mkSt (m.write (s + REQUIRED_PAYLOAD_SIZE) pd) log sb si) :=
+    (enableStreamingG_pub p s pd m log sb si hs hpd hr).1 hen
+  have himg := enable_image p _ s e hconf
+  have hen1 : enabledIn (m.write (s + REQUIRED_PAYLOAD_SIZE) pd) s := by
+    unfold enabledIn regVal
+    rw [Mem.read_write_disjoint _ _ _ _ _ (by simp [SI_CONTROL, REQUIRED_PAYLOAD_SIZE])]
+    exact hen
+  have hl := leader_covered p _ s e hconf
+  have ht := trailer_covered p _ s e hconf
+  have hp := payload_covered p _ s e hconf
+  have hal := all_aligned p _ s e hconf
+  obtain ⟨new1, k1, k2⟩ := disable_first p _ s e hconf hen1
+  obtain ⟨new2, j1, j2, j3, j4⟩ := enable_last p _ s e hconf
+  have hnew : new1 = new2 := List.append_cancel_left (k1.symm.trans j1)
+  subst hnew
+  simp only at hp hal
+  have hmem : img = (enableStreaming p (mkSt (m.write (s + REQUIRED_PAYLOAD_SIZE) pd) log sb si)).2.dev.mem := by
+    simp only [img, hrun]
+  -- the required registers of the final image are the published ones
+  have hreq : ∀ off n, REQUIRED_PAYLOAD_SIZE ≤ off → off + n ≤ MAXIMUM_LEADER_SIZE →
+      regVal img s off n = regVal (m.write (s + REQUIRED_PAYLOAD_SIZE) pd) s off n := by
+    intro off n h1 h2
+    simp only [regVal]
+    rw [hmem, himg.2, enableImage_read_required _ _ _ _ _ (by omega) (by omega)]
+  rw [← hmem] at hl ht hp hal j4
+  rw [← hreq REQUIRED_LEADER_SIZE 4 (by decide) (by decide)] at hl
+  rw [← hreq REQUIRED_TRAILER_SIZE 4 (by decide) (by decide)] at ht
+  rw [← hreq REQUIRED_PAYLOAD_SIZE 8 (by decide) (by decide)] at hp
+  refine ⟨by rw [hrun]; exact himg.1, ?_, hl, ht, hp, hal, j4, new1, by rw [hrun]; exact k1, k2, j2, j3⟩
+  rw [hmem, himg.2, enableImage_read_required _ _ _ _ _ (Nat.le_refl _) (by simp [REQUIRED_PAYLOAD_SIZE, MAXIMUM_LEADER_SIZE])]
+  have := Mem.read_write_same m (s + REQUIRED_PAYLOAD_SIZE) pd
+  rwa [hpd] at this
+
+/-- **published_params_roundtrip**: the parameters `StreamParams::from_control` reads back on the
+publishing device after that call are the programmed ones, and `maximum_payload_size()` covers the
+PUBLISHED required payload. -/
+theorem published_params_roundtrip (p : Profile) (s e b : Nat) (pd : Bytes) (m : Mem) (log sb si)
+    (hs : SirmOk m s) (hpd : pd.length = 16) (hr : ResolvesTo m sb si s) (hen : enabledIn m s)
+    (hin : InScope (m.write (s + REQUIRED_PAYLOAD_SIZE) pd) s e) (hb : Bootstrap m b s) :
+    let st' := (enableStreamingG (Prim.publishing (pubOf s pd)) p (mkSt m log sb si)).2
+    let sz := programmedSizes (m.write (s + REQUIRED_PAYLOAD_SIZE) pd) s e
+    ∃ st'' t, fromControlG (Prim.publishing (pubOf s pd)) st' =
+        (.ok ⟨sz.maxLeader, sz.maxTrailer, sz.transferSize, sz.transferCount, sz.final1, sz.final2, t⟩, st'') ∧
+      st''.dev.mem = st'.dev.mem ∧
+      ∃ n, StreamParams.maximumPayloadSize p
+            ⟨sz.maxLeader, sz.maxTrailer, sz.transferSize, sz.transferCount, sz.final1, sz.final2, t⟩ = .ok n ∧
+        regVal st'.dev.mem s REQUIRED_PAYLOAD_SIZE 8 ≤ n := by
+  intro st' sz
+  have hconf : Conforming (mkSt (m.write (s + REQUIRED_PAYLOAD_SIZE) pd) log sb si) s e :=
+    ⟨rfl, (hr.write REQUIRED_PAYLOAD_SIZE pd (by rw [hpd]; decide)).resolves,
+      ⟨hs.inSpace, by simpa using hs.mapped⟩, hin⟩
+  have hrun : st' = (enableStreaming p (mkSt (m.write (s + REQUIRED_PAYLOAD_SIZE) pd) log sb si)).2 := by
+    simp only [st', (enableStreamingG_pub p s pd m log sb si hs hpd hr).1 hen]
+  obtain ⟨st'', t, k1, k2, n, k3, k4⟩ := params_roundtrip p _ s e b hconf
+    (Bootstrap.write_in_sirm hb REQUIRED_PAYLOAD_SIZE pd (by rw [hpd]; decide))
+  refine ⟨st'', t, by rw [fromControlG_pub, hrun]; exact k1, by rw [hrun]; exact k2, n, k3, ?_⟩
+  have : regVal st'.dev.mem s REQUIRED_PAYLOAD_SIZE 8 =
+      regVal (m.write (s + REQUIRED_PAYLOAD_SIZE) pd) s REQUIRED_PAYLOAD_SIZE 8 := by
+    simp only [regVal]
+    rw [hrun, (enable_image p _ s e hconf).2,
+      enableImage_read_required _ _ _ _ _ (Nat.le_refl _) (by simp [REQUIRED_PAYLOAD_SIZE, MAXIMUM_LEADER_SIZE])]
+  rw [this]; exact k4
+
+/-! ## 7. Tie G for the constants
+
+The literal constants of the hand-written models are compared with files regenerated from the
+current source on every check: `Gen/C15Consts.lean` (tools/gen_c15_arith.py:
+`PAYLOAD_TRANSFER_SIZE` of control_handle.rs), `Gen/RegMap.lean` (tools/gen_regmap.py: register
+offsets and lengths of device/src/u3v/register_map.rs), `Gen/CmdConsts.lean`
+(tools/gen_cmd_consts.py: command / acknowledge header lengths of cmd.rs). -/
+
+/-- (offset, length) of the register `name` in a generated table -/
+def genReg (tbl : List (String × Nat × Nat)) (name : String) : Option (Nat × Nat) :=
+  (tbl.find? (fun r => r.1 == name)).map (fun r => r.2)
+
+/-- **gen_consts_tie**: generated constants = model constants.  `PAYLOAD_TRANSFER_SIZE`; every
+register the models access, with the length they access it with (`readReg .. 4/8`,
+`writeReg32`); and the three header lengths of the limits layer: the chunking code of
+`Model/StreamingLimits.lean` IS the same code with the generated constants in place of the
+literals 12 (acknowledge header), 24 (`ReadMem` command = command header + its SCD), 20
+(`WriteMem` command header + address). -/
+theorem gen_consts_tie :
+    Streaming.PAYLOAD_TRANSFER_SIZE = Gen.C15Consts.PAYLOAD_TRANSFER_SIZE ∧
+    (genReg Gen.RegMap.sirm "SI_INFO" = some (SI_INFO, 4) ∧
+     genReg Gen.RegMap.sirm "SI_CONTROL" = some (SI_CONTROL, 4) ∧
+     genReg Gen.RegMap.sirm "REQUIRED_PAYLOAD_SIZE" = some (REQUIRED_PAYLOAD_SIZE, 8) ∧
+     genReg Gen.RegMap.sirm "REQUIRED_LEADER_SIZE" = some (REQUIRED_LEADER_SIZE, 4) ∧
+     genReg Gen.RegMap.sirm "REQUIRED_TRAILER_SIZE" = some (REQUIRED_TRAILER_SIZE, 4) ∧
+     genReg Gen.RegMap.sirm "MAXIMUM_LEADER_SIZE" = some (MAXIMUM_LEADER_SIZE, 4) ∧
+     genReg Gen.RegMap.sirm "PAYLOAD_TRANSFER_SIZE" = some (PAYLOAD_TRANSFER_SIZE_REG, 4) ∧
+     genReg Gen.RegMap.sirm "PAYLOAD_TRANSFER_COUNT" = some (PAYLOAD_TRANSFER_COUNT, 4) ∧
+     genReg Gen.RegMap.sirm "PAYLOAD_FINAL_TRANSFER1_SIZE" = some (PAYLOAD_FINAL_TRANSFER1_SIZE, 4) ∧
+     genReg Gen.RegMap.sirm "PAYLOAD_FINAL_TRANSFER2_SIZE" = some (PAYLOAD_FINAL_TRANSFER2_SIZE, 4) ∧
+     genReg Gen.RegMap.sirm "MAXIMUM_TRAILER_SIZE" = some (MAXIMUM_TRAILER_SIZE, 4)) ∧
+    (genReg Gen.RegMap.abrm "DEVICE_CAPABILITY" = some (ABRM_DEVICE_CAPABILITY, 8) ∧
+     genReg Gen.RegMap.abrm "MAXIMUM_DEVICE_RESPONSE_TIME" = some (ABRM_MAXIMUM_DEVICE_RESPONSE_TIME, 4) ∧
+     genReg Gen.RegMap.abrm "SBRM_ADDRESS" = some (ABRM_SBRM_ADDRESS, 8) ∧
+     genReg Gen.RegMap.sbrm "U3VCP_CAPABILITY_REGISTER" = some (SBRM_U3VCP_CAPABILITY, 8) ∧
+     genReg Gen.RegMap.sbrm "SIRM_ADDRESS" = some (SBRM_SIRM_ADDRESS, 8)) ∧
+    (∀ L a n, devReadL L a n =
+      if L.maxAck ≤ Gen.CmdConsts.ACK_HEADER_LENGTH then M.fail .io
+      else readLoopL L (min (L.maxAck - Gen.CmdConsts.ACK_HEADER_LENGTH) 65535) n a n) ∧
+    (∀ L m fuel a n, readLoopL L m (fuel + 1) a n =
+      if n = 0 then pure [] else
+      if L.maxCmd < Gen.CmdConsts.HEADER_LEN + Gen.CmdConsts.READMEM_SCD_LEN then M.fail .io else do
+        let bs ← devRead a (min m n)
+        let rest ← readLoopL L m fuel (a + min m n) (n - min m n)
+        pure (bs ++ rest)) ∧
+    (∀ L a data, devWriteL L a data =
+      if data.length = 0 then pure ()
+      else if L.maxCmd ≤ Gen.CmdConsts.WRITE_CHUNK_HEADER then M.fail .io
+      else writeLoopL (L.maxCmd - Gen.CmdConsts.WRITE_CHUNK_HEADER) data.length a data) := by
+  refine ⟨rfl, ⟨by decide, by decide, by decide, by decide, by decide, by decide, by decide, by decide,
+    by decide, by decide, by decide⟩, ⟨by decide, by decide, by decide, by decide, by decide⟩,
+    fun _ _ _ => rfl, fun _ _ _ _ _ => rfl, fun _ _ _ => rfl⟩
+
 /-- device image from (base, bytes) regions -/
 def memOfRegions (rs : List (Nat × Bytes)) : Mem :=
   { byte := fun x =>
@@ -809,5 +998,250 @@ def exFault2 : St := ⟨⟨exMem, [], List.replicate 4 none ++ [some ⟨.io, fal
 example : (enableStreaming .dev exFault2).1 = .err .io ∧
     enabledIn (enableStreaming .dev exFault2).2.dev.mem 0x1000 ∧
     (enableStreaming .dev exFault2).2.dev.log.length = 5 := by decide
+
+/-! ## 5. The negotiated limits inside the model
+
+`Model/StreamingLimits.lean`: `Prim.limits L` is the handle whose `open` negotiated
+`maximum_cmd_length = L.maxCmd` and `maximum_ack_length = L.maxAck`; `ControlHandle::read` cuts a
+register read into `ReadMem` commands of at most `min (L.maxAck - 12) 65535` bytes (refused without
+a command when `L.maxAck ≤ 12` or `L.maxCmd < 24`), `ControlHandle::write` cuts a register write
+into `WriteMem` commands of at most `L.maxCmd - 20` bytes.  `enableStreamingG (Prim.limits L)` is
+`enable_streaming` of that handle.  Every pair of limits falls into one of three classes:
+`24 ≤ maxCmd ∧ 20 ≤ maxAck` (one command per register: the model of sections 1-4, literally),
+`24 ≤ maxCmd ∧ 13 ≤ maxAck` (reads may be split), `maxCmd < 24 ∨ maxAck ≤ 12` (every read refused). -/
+
+/-- **limits_single_command**: with room for an 8 byte register in one command
+(`max_cmd ≥ 24`, `max_ack ≥ 20`) the handle with limits IS the model of sections 1-4 — the
+assumption "one register access = one command" of those sections is a theorem about the chunking
+code, and every theorem above holds verbatim for every such pair of limits. -/
+theorem limits_single_command (L : Limits) (hc : 24 ≤ L.maxCmd) (ha : 20 ≤ L.maxAck) :
+    (∀ p, enableStreamingG (Prim.limits L) p = enableStreaming p) ∧
+    disableStreamingG (Prim.limits L) = disableStreaming ∧
+    getSbrmG (Prim.limits L) = getSbrm ∧
+    fromControlG (Prim.limits L) = fromControl ∧
+    startStreamingLoopG (Prim.limits L) = startStreamingLoop :=
+  limits_eq_single L hc ha
+
+/-- the generic text instantiated with single commands is the model of sections 1-4 -/
+theorem generic_model_is_the_model (p : Profile) :
+    enableStreamingG Prim.single p = enableStreaming p ∧ disableStreamingG Prim.single = disableStreaming ∧
+    fromControlG Prim.single = fromControl ∧ startStreamingLoopG Prim.single = startStreamingLoop :=
+  ⟨enableStreamingG_single p, disableStreamingG_single, fromControlG_single, startStreamingLoopG_single⟩
+
+/-- **chunked_read_exact**: on a fault-free device a register read under ANY limits that let
+reads through returns exactly what a single read of the `n` bytes returns (the bytes, or `Io` when
+part of the range is unmapped), leaves image, caches and fault schedule alone and logs read
+commands only. -/
+theorem chunked_read_exact (L : Limits) (hc : 24 ≤ L.maxCmd) (ha : 13 ≤ L.maxAck) (a n : Nat) (st : St)
+    (hf : st.dev.faults = []) :
+    ∃ rs, (∀ r ∈ rs, r.isRead) ∧
+      devReadL L a n st = ((devRead a n st).1, addLog st rs) := by
+  obtain ⟨rs, h1, h2⟩ := devReadL_faultfree L hc ha a n st hf
+  obtain ⟨rt, _, h3⟩ := devRead_faultfree a n st hf
+  exact ⟨rs, h1, by rw [h2, h3]⟩
+
+/-- **enable_refused_below_limits**: limits that cannot carry a read (`max_cmd < 24`: the 24 byte
+`ReadMem` command does not fit; `max_ack ≤ 12`: no room for data) make `enable_streaming` fail —
+for every image, cache state, fault schedule and profile — with the handle state and the device
+untouched: no command at all is sent, in particular no write (not even a part of the
+`SI_CONTROL` write) reaches the device. -/
+theorem enable_refused_below_limits (L : Limits) (h : L.maxCmd < 24 ∨ L.maxAck ≤ 12) (p : Profile) (st : St) :
+    ∃ e, enableStreamingG (Prim.limits L) p st = (.err e, st) :=
+  enableStreamingG_refused (Prim.limits_refuses L h) p st
+
+/-- **failure_atomic_enable_limits**: `failure_atomic_enable_streaming` for EVERY pair of limits
+that lets the operation through (`max_cmd ≥ 24`, any `max_ack`; with `max_ack ≤ 12` it degenerates
+to the refusal above): every image, cache state, fault schedule (one entry per COMMAND, so a
+register read may fail in its second half) and profile.  The resolution sends read commands only;
+no command but the last sets the enable bit; a failed command surfaces as `Err`; after a failed
+call the bit is set only through the lost acknowledge of the final write, or because it was set
+before and untouched. -/
+theorem failure_atomic_enable_limits (L : Limits) (hc : 24 ≤ L.maxCmd) (p : Profile) (st : St) :
+    (∃ pre, (∀ a ∈ pre, a.isRead) ∧ (getSirmG (Prim.limits L) st).2.dev.log = st.dev.log ++ pre ∧
+      (getSirmG (Prim.limits L) st).2.dev.mem = st.dev.mem) ∧
+    (∀ s, (getSirmG (Prim.limits L) st).1 = .ok s →
+      let st1 := (getSirmG (Prim.limits L) st).2
+      let lost := Access.w (s + SI_CONTROL) (toLE 4 1) false true
+      enableStreamingG (Prim.limits L) p st = enableAtG (Prim.limits L) p s st1 ∧
+      ∃ new, (enableStreamingG (Prim.limits L) p st).2.dev.log = st1.dev.log ++ new ∧
+        (enableStreamingG (Prim.limits L) p st).2.dev.mem = replay new st.dev.mem ∧
+        (∀ a ∈ new.dropLast, ¬ a.enables s) ∧
+        ((∃ a ∈ new, a.succeeded = false) → ∃ err, (enableStreamingG (Prim.limits L) p st).1 = .err err) ∧
+        ((enableStreamingG (Prim.limits L) p st).1 ≠ .ok () → ∀ a ∈ new, a.enables s → a = lost) ∧
+        ((enableStreamingG (Prim.limits L) p st).1 ≠ .ok () → lost ∉ new →
+          enabledIn (enableStreamingG (Prim.limits L) p st).2.dev.mem s →
+            enabledIn st.dev.mem s ∧ ∀ a ∈ new, ¬ a.touches s)) ∧
+    (∀ e, (getSirmG (Prim.limits L) st).1 = .err e → (enableStreamingG (Prim.limits L) p st).1 = .err e ∧
+      (enableStreamingG (Prim.limits L) p st).2 = (getSirmG (Prim.limits L) st).2) :=
+  failure_atomic_enableStreamingG (Prim.limits_sound L hc) p st
+
+/-- **limits_invisible_without_faults**: on a fault-free device, for every pair of limits that
+lets reads through (`max_cmd ≥ 24`, `max_ack ≥ 13`), every cache state and image (conforming or
+not): `enable_streaming`, `disable_streaming` and `from_control` return the same result, leave the
+same image and caches and send the same write commands in the same order as the one-command-per-
+register model. -/
+theorem limits_invisible_without_faults (L : Limits) (hc : 24 ≤ L.maxCmd) (ha : 13 ≤ L.maxAck)
+    (st : St) (hf : st.dev.faults = []) :
+    (∀ p, (enableStreamingG (Prim.limits L) p st).1 = (enableStreaming p st).1 ∧
+      Rel (enableStreamingG (Prim.limits L) p st).2 (enableStreaming p st).2) ∧
+    ((disableStreamingG (Prim.limits L) st).1 = (disableStreaming st).1 ∧
+      Rel (disableStreamingG (Prim.limits L) st).2 (disableStreaming st).2) ∧
+    ((fromControlG (Prim.limits L) st).1 = (fromControl st).1 ∧
+      Rel (fromControlG (Prim.limits L) st).2 (fromControl st).2) :=
+  have hπ := Prim.limits_faithful L hc ha
+  ⟨fun p => Sim.enableStreamingG hπ p st st (Rel.refl st hf),
+   Sim.disableStreamingG hπ st st (Rel.refl st hf), Sim.fromControlG hπ st st (Rel.refl st hf)⟩
+
+/-- **coverage_under_limits**: the coverage statement of the property for EVERY pair of limits
+that lets the operation through (`max_cmd ≥ 24`, `max_ack ≥ 13`; register reads are cut into
+several commands when `max_ack < 20`): on a conforming device the call returns `Ok`, every
+command succeeded, the final image is the one of `enable_image`, hence maximum leader / trailer
+cover the required ones, size × count + final1 + final2 covers the required payload, every
+programmed size is a multiple of the alignment; the write commands are exactly: `SI_CONTROL := 0`
+iff the stream was enabled (first), the six size writes, `SI_CONTROL := 1` (last), and the
+enable bit is set afterwards. -/
+theorem coverage_under_limits (L : Limits) (hc : 24 ≤ L.maxCmd) (ha : 13 ≤ L.maxAck) (p : Profile)
+    (st : St) (s e : Nat) (h : Conforming st s e) :
+    let r := enableStreamingG (Prim.limits L) p st
+    let img := r.2.dev.mem
+    r.1 = .ok () ∧ img = enableImage st.dev.mem s (programmed st s e) ∧
+    regVal st.dev.mem s REQUIRED_LEADER_SIZE 4 ≤ regVal img s MAXIMUM_LEADER_SIZE 4 ∧
+    regVal st.dev.mem s REQUIRED_TRAILER_SIZE 4 ≤ regVal img s MAXIMUM_TRAILER_SIZE 4 ∧
+    regVal st.dev.mem s REQUIRED_PAYLOAD_SIZE 8 ≤
+      regVal img s PAYLOAD_TRANSFER_SIZE_REG 4 * regVal img s PAYLOAD_TRANSFER_COUNT 4 +
+      regVal img s PAYLOAD_FINAL_TRANSFER1_SIZE 4 + regVal img s PAYLOAD_FINAL_TRANSFER2_SIZE 4 ∧
+    (2 ^ e ∣ regVal img s PAYLOAD_TRANSFER_SIZE_REG 4 ∧ 2 ^ e ∣ regVal img s PAYLOAD_FINAL_TRANSFER1_SIZE 4 ∧
+      2 ^ e ∣ regVal img s PAYLOAD_FINAL_TRANSFER2_SIZE 4 ∧ 2 ^ e ∣ regVal img s MAXIMUM_LEADER_SIZE 4 ∧
+      2 ^ e ∣ regVal img s MAXIMUM_TRAILER_SIZE 4) ∧
+    enabledIn img s ∧
+    ∃ new, r.2.dev.log = st.dev.log ++ new ∧ (∀ a ∈ new, a.succeeded = true) ∧
+      writesOf new = (if enabledIn st.dev.mem s then [disableW s] else []) ++
+        writesLog s (sizeWrites (programmed st s e)) ++ [.w (s + SI_CONTROL) (toLE 4 1) true true] := by
+  intro r img
+  obtain ⟨hres, hrel⟩ := Sim.enableStreamingG (Prim.limits_faithful L hc ha) p st st (Rel.refl st h.noFaults)
+  have himg := enable_image p st s e h
+  have hok : r.1 = .ok () := hres.trans himg.1
+  have hmem : img = (enableStreaming p st).2.dev.mem := hrel.mem
+  have hl := leader_covered p st s e h
+  have ht := trailer_covered p st s e h
+  have hp := payload_covered p st s e h
+  have hal := all_aligned p st s e h
+  obtain ⟨_, _, _, _, hen⟩ := enable_last p st s e h
+  simp only at hp hal
+  rw [← hmem] at hl ht hp hal hen
+  refine ⟨hok, hmem.trans himg.2, hl, ht, hp, hal, hen, ?_⟩
+  obtain ⟨new, g1, _, _, g4⟩ := enableStreamingG_ext (Prim.limits_sound L hc) p st
+  refine ⟨new, g1, g4 (fun e he => by rw [show (enableStreamingG (Prim.limits L) p st).1 = .ok () from hok] at he; cases he), ?_⟩
+  obtain ⟨pre, c, hpre, hrun⟩ := enable_run p st s e h
+  have hw := hrel.writes
+  rw [g1, hrun] at hw
+  simp only [writesOf_append, writesOf_reads _ hpre, List.append_nil] at hw
+  rw [← writesOf_enableScript]
+  exact List.append_cancel_left hw
+
+/-- **params_roundtrip_under_limits**: for every pair of limits that lets the operation through,
+`StreamParams::from_control` of the same handle (its reads are cut by the same limits), run on
+the state a successful `enable_streaming` leaves behind, returns exactly the six programmed
+values, does not modify the image, and `maximum_payload_size()` covers the required payload. -/
+theorem params_roundtrip_under_limits (L : Limits) (hc : 24 ≤ L.maxCmd) (ha : 13 ≤ L.maxAck) (p : Profile)
+    (st : St) (s e sb : Nat) (h : Conforming st s e) (hb : Bootstrap st.dev.mem sb s) :
+    let st' := (enableStreamingG (Prim.limits L) p st).2
+    let sz := programmed st s e
+    ∃ t, (fromControlG (Prim.limits L) st').1 =
+        .ok ⟨sz.maxLeader, sz.maxTrailer, sz.transferSize, sz.transferCount, sz.final1, sz.final2, t⟩ ∧
+      (fromControlG (Prim.limits L) st').2.dev.mem = st'.dev.mem ∧
+      ∃ n, StreamParams.maximumPayloadSize p
+            ⟨sz.maxLeader, sz.maxTrailer, sz.transferSize, sz.transferCount, sz.final1, sz.final2, t⟩ = .ok n ∧
+        regVal st.dev.mem s REQUIRED_PAYLOAD_SIZE 8 ≤ n := by
+  intro st' sz
+  have hπ := Prim.limits_faithful L hc ha
+  obtain ⟨_, hrel⟩ := Sim.enableStreamingG hπ p st st (Rel.refl st h.noFaults)
+  obtain ⟨g1, g2⟩ := Sim.fromControlG hπ _ _ hrel
+  obtain ⟨st'', t, k1, k2, n, k3, k4⟩ := params_roundtrip p st s e sb h hb
+  refine ⟨t, ?_, ?_, n, k3, k4⟩
+  · rw [g1, k1]
+  · rw [g2.mem, k1]; exact k2.trans hrel.mem.symm
+
+/-- **disable_under_split_writes**: `max_cmd` 21..23 is reachable by `disable_streaming` on a
+handle whose SIRM cache is warm from an earlier session (every read is refused, but this call
+needs none): on a fault-free device with SI_CONTROL mapped, for EVERY `max_cmd ≥ 21` the call
+returns `Ok`, the register write is cut into successful `WriteMem` commands of at most
+`max_cmd - 20` bytes (nothing else is sent), SI_CONTROL is 0 afterwards and the enable bit clear. -/
+theorem disable_under_split_writes (L : Limits) (hc : 21 ≤ L.maxCmd) (s : Nat) (m : Mem) (log sb)
+    (hsp : s + SI_CONTROL + 4 ≤ 2 ^ 64) (hm : m.rangeMapped (s + SI_CONTROL) 4 = true) :
+    ∃ ws, (∀ w ∈ ws, w.okWriteUpTo (L.maxCmd - 20)) ∧
+      disableStreamingG (Prim.limits L) (mkSt m log sb (some s)) =
+        (.ok (), mkSt (m.write (s + SI_CONTROL) (toLE 4 0)) (log ++ ws) sb (some s)) ∧
+      ¬ enabledIn (m.write (s + SI_CONTROL) (toLE 4 0)) s := by
+  obtain ⟨ws, h1, h2⟩ := disableStreamingL_warm L hc s m log sb hsp hm
+  exact ⟨ws, h1, h2, enabledIn_write_zero m s⟩
+
+/-- **disable_never_sets_enable_limits**: `disable_streaming` under EVERY pair of limits, on every
+device image, cache state and fault schedule (one entry per command, so the split write may stop
+half way): the image changes exactly by the executed commands, none of which sets the enable bit
+of any SIRM (a partially executed disable can only have cleared it), and a failed command
+surfaces as `Err`. -/
+theorem disable_never_sets_enable_limits (L : Limits) (st : St) :
+    ∃ new, (disableStreamingG (Prim.limits L) st).2.dev.log = st.dev.log ++ new ∧
+      (disableStreamingG (Prim.limits L) st).2.dev.mem = replay new st.dev.mem ∧
+      (∀ a ∈ new, ∀ s, ¬ a.enables s) ∧
+      ((∀ e, (disableStreamingG (Prim.limits L) st).1 ≠ .err e) → ∀ a ∈ new, a.succeeded = true) :=
+  disableStreamingL_quiet L st
+
+/-- **never_panics_limits**: for EVERY pair of negotiated limits (no hypothesis on them), every
+device image, cache state, fault schedule and both profiles: `enable_streaming`,
+`disable_streaming`, `StreamParams::from_control` and `start_streaming_loop` return `Ok` or `Err`. -/
+theorem never_panics_limits (L : Limits) (p : Profile) (st : St) (sh : StreamHandle) :
+    (enableStreamingG (Prim.limits L) p st).1 ≠ .panic ∧
+    (disableStreamingG (Prim.limits L) st).1 ≠ .panic ∧
+    (fromControlG (Prim.limits L) st).1 ≠ .panic ∧
+    (startStreamingLoopG (Prim.limits L) sh st).1 ≠ .panic := by
+  have hπ := Prim.limits_noPanic L
+  have h2 := (NP.fromControlG hπ st).1
+  refine ⟨(NP.enableStreamingG hπ p st).1, (NP.disableStreamingG hπ st).1, h2, ?_⟩
+  simp only [startStreamingLoopG]
+  cases hfc : fromControlG (Prim.limits L) st with
+  | mk r st' =>
+    rw [hfc] at h2
+    cases r with
+    | ok sp => simp only; split <;> simp
+    | err e => simp
+    | panic => exact absurd rfl h2
+
+/-! ### Non-vacuity of section 5 -/
+
+/-- max_ack = 13: every register read is cut into 1 byte commands (4 resp. 8 of them) -/
+example : (enableStreamingG (Prim.limits ⟨24, 13⟩) .dev exSt).1 = .ok () ∧
+    (enableStreamingG (Prim.limits ⟨24, 13⟩) .dev exSt).2.dev.log.length = 24 + 25 + 7 ∧
+    (enableStreaming .dev exSt).2.dev.log.length = 3 + 13 := by decide +kernel
+/-- max_ack = 17: an 8 byte read is 5 + 3 bytes; a fault on the second half surfaces as `Err` -/
+example : (enableStreamingG (Prim.limits ⟨64, 17⟩) .dev ⟨⟨exMem, [], [none, some ⟨.timeout, false⟩]⟩, none, none⟩).1
+    = .err .timeout := by decide
+/-- max_cmd = 23: refused, nothing logged -/
+example : (enableStreamingG (Prim.limits ⟨23, 1024⟩) .dev exSt).1 = .err .io ∧
+    (enableStreamingG (Prim.limits ⟨23, 1024⟩) .dev exSt).2.dev.log = [] := by decide
+/-- max_cmd = 22 after a re-open with warm caches: `disable_streaming` needs no read, its write is
+cut into two 2 byte commands and clears the enable bit -/
+example : (disableStreamingG (Prim.limits ⟨22, 1024⟩) ⟨⟨exMem, [], []⟩, none, some 0x1000⟩).1 = .ok () ∧
+    (disableStreamingG (Prim.limits ⟨22, 1024⟩) ⟨⟨exMem, [], []⟩, none, some 0x1000⟩).2.dev.log =
+      [.w 0x1004 [0, 0] true true, .w 0x1006 [0, 0] true true] := by decide
+
+/-! ### Non-vacuity of section 6 -/
+
+/-- the device shows payload 1000000 / leader 52 / trailer 100 while streaming and will publish
+payload 5000000 / leader 1024 / trailer 5000 -/
+def exPub : Bytes := toLE 8 5000000 ++ toLE 4 1024 ++ toLE 4 5000
+example : SirmOk exMem 0x1000 ∧ exPub.length = 16 ∧ enabledIn exMem 0x1000 :=
+  ⟨⟨by decide, by decide⟩, by decide, by decide⟩
+example : ResolvesTo exMem none none 0x1000 :=
+  .cold rfl rfl 0x2000 ⟨by decide, by decide, by decide, by decide, by decide, by decide, by decide, by decide⟩
+example : InScope (exMem.write (0x1000 + REQUIRED_PAYLOAD_SIZE) exPub) 0x1000 4 :=
+  ⟨by decide, by decide, by decide, by decide, by decide⟩
+/-- the programmed sizes cover the published, not the stale, requirements -/
+example : (enableStreamingG (Prim.publishing (pubOf 0x1000 exPub)) .dev exSt).1 = .ok () ∧
+    regVal (enableStreamingG (Prim.publishing (pubOf 0x1000 exPub)) .dev exSt).2.dev.mem 0x1000 MAXIMUM_LEADER_SIZE 4 = 1024 ∧
+    regVal (enableStreamingG (Prim.publishing (pubOf 0x1000 exPub)) .dev exSt).2.dev.mem 0x1000 MAXIMUM_TRAILER_SIZE 4 = 5008 ∧
+    regVal (enableStreamingG (Prim.publishing (pubOf 0x1000 exPub)) .dev exSt).2.dev.mem 0x1000 PAYLOAD_TRANSFER_COUNT 4 = 76 ∧
+    regVal (enableStreaming .dev exSt).2.dev.mem 0x1000 MAXIMUM_LEADER_SIZE 4 = 64 := by decide +kernel
 
 end CamVerif.C15
